@@ -175,9 +175,24 @@ def run(c):
     elif tg(ba["first"]) != ["usr", "bin", "w", "src"] or tg(ba["second"]) != ["usr", "bin", "w", "other"] or ba["first_later"] != ba["first"]:
         c.finding_or_violation(cz2("two builders made from one base table see each other's entries", first=tg(ba["first_later"]), second=tg(ba["second"])),
                                {"observed": ba}, klass="builder-alias")
+    # ---- the launcher's raw mount sequence, started three times with one prepared table (no user namespace, no callback)
+    rt = c.run_harness("/usr/bin/unshare", [{"id": 0, "mode": "raw_twice"}], args=("-m", "--propagation", "private", exe), env=env, timeout=120)[0]
+    if "harness_err" in rt:
+        raise RuntimeError(rt["harness_err"])
+    for k, ro_ in enumerate(rt["runs"]):
+        c.count(("raw-start", k), nontrivial=k > 0, klass="raw-restart")
+        if "start_err" in ro_ or not ro_.get("probe", "").startswith("{"):
+            c.finding_or_violation(cz2("the sandbox cannot be built or the probe does not run", start=k + 1, error=str(ro_.get("start_err"))[:80]), {"observed": rt}, klass="build")
+            break
+        pw = json.loads(ro_["probe"])["paths"]
+        if pw["/data"]["write_errno"] != 30 or pw["/w"]["write_errno"] != 0:
+            c.finding_or_violation(cz2("start number %d with the same prepared mount table: a mount declared read-only accepts writes (or a writable one does not)" % (k + 1),
+                                       data_write_errno=pw["/data"]["write_errno"]), {"observed": rt}, klass="raw-restart")
+            break
     # ---- a read-only bind whose source file system is read-only as a whole during set-up and writable again afterwards
     for init_cmd in (False, True):
-        so = c.run_harness(exe, [{"id": 0, "mode": "sb_readonly", "runner": "container", "init_cmd": init_cmd, "mounts": [], "probe": []}], env=env, timeout=120)[0]
+        so = c.run_harness("/usr/bin/unshare", [{"id": 0, "mode": "sb_readonly", "runner": "container", "init_cmd": init_cmd, "mounts": [], "probe": []}],
+                           args=("-m", "--propagation", "private", exe), env=env, timeout=120)[0]
         if "harness_err" in so:
             raise RuntimeError(so["harness_err"])
         c.count(("sb-readonly", init_cmd), nontrivial=True, klass="sb-readonly")
